@@ -188,7 +188,7 @@ func tempProjects(c *core.Ctx, n, years int) []*gen.Project {
 	for i := 0; i < n; i++ {
 		r := rngFor(c, 1900+int64(i))
 		o := gen.Opts{Years: years, MinLayers: 1, MaxLayers: 20, ColdWinters: i%2 == 0, BulkExplicit: i%2 == 1, HighCorg: i%3 == 0, ShallowGW: i%3 == 1,
-			Drought: i%4 == 0 || i%5 == 2, HeavyRain: i%4 == 2 && i%5 != 2, NoCrops: i%5 == 0, Stones: i%6 == 1, Peat: i%7 == 6}
+			Drought: i%4 == 0 || i%5 == 2, HeavyRain: i%4 == 2 && i%5 != 2, NoCrops: i%5 == 0, Stones: i%6 == 5, Peat: i%7 == 6}
 		// measured bulk densities below 0.567 g/cm3: the conductivity formula is negative there (known finding H21)
 		if i%10 == 9 {
 			o.LowBulk, o.BulkExplicit, o.Peat = true, false, false
